@@ -25,6 +25,9 @@ def dispatch(pid: str, tier: str) -> int:
     if pid == 'C18':
         from harness import check_validate
         return check_validate.c18(tier)
+    if pid in ('C04', 'C10', 'C11', 'C12'):
+        from harness import check_query
+        return getattr(check_query, pid.lower())(tier)
     raise MachineryError(f'no check for {pid}')
 
 
